@@ -472,7 +472,12 @@ func (r *runner) count(what string) {
 	covMu.Unlock()
 }
 
+var c30Publish = true // TestC16ACosmos re-uses runC30 as a transaction source and switches the C30 evidence off
+
 func publishCoverage() {
+	if !c30Publish {
+		return
+	}
 	covMu.Lock()
 	m := make(map[string]int, len(cov))
 	for k, v := range cov {
